@@ -17,12 +17,39 @@ M = [
  ("c05-minus-secstress-clears-primary", "src/syll.rs", "            } else if self.stress == StressKind::Secondary {\n                self.stress = StressKind::Unstressed;\n            },", "            } else {\n                self.stress = StressKind::Unstressed;\n            },", ["C05"]),
  ("c05-revert-long-cursor-fix", "src/subrule.rs", "REVERT:fix: after substituting a long segment", "", ["C05"]),
  ("c09-renderer-skips-prereq", "src/seg.rs", "if buf_seg.match_modifiers(&d.prereqs).is_ok() && self.match_modifiers(&d.payload).is_ok() {", "if self.match_modifiers(&d.payload).is_ok() {", ["C09"]),
- ("c09-tone-zero-digit-kept", "src/word.rs", "                    tone_buffer = tone_buffer.replace('0', \"\");\n", "", ["C09"]),
+ ("c08-tone-zero-digit-kept", "src/word.rs", "                    tone_buffer = tone_buffer.replace('0', \"\");\n", "", ["C08"]),
  ("c18-pharyngeal-mask", "src/place.rs", "                    *d = (*d & !0x03) | m as u16;", "                    *d = (*d & !0x01) | m as u16;", ["C18"]),
  ("c18-coronal-none-keeps-payload", "src/place.rs", "                *d &= !(Self::COR_BIT | Self::COR_LOW)", "                *d &= !(Self::COR_BIT)", ["C18"]),
  ("c02-revert-dollar-cursor", "src/subrule.rs", "REVERT:fix: keep the scan cursor at the matched boundary", "", ["C02"]),
  ("c02-deletion-no-advance", "src/subrule.rs", "                if let Some(next) = next_pos {\n                    pos.increment(&res_word);\n                    *next = pos;\n                }\n                Ok(res_word)\n            },\n            RuleType::Insertion", "                if let Some(next) = next_pos {\n                    *next = pos;\n                }\n                Ok(res_word)\n            },\n            RuleType::Insertion", ["C02"]),
- ("c02-only-seg-guard-removed", "src/subrule.rs", "                            if res_word.syllables.len() <= 1 && word.syllables[i.syll_index].segments.len() <= 1 {\n                                return Err(RuleRuntimeError::DeletionOnlySeg)\n                            }", "", ["C02", "C08"]),
+ ("c02-only-seg-guard-removed", "src/subrule.rs", "                            if res_word.syllables.len() <= 1 && word.syllables[i.syll_index].segments.len() <= 1 {\n                                return Err(RuleRuntimeError::DeletionOnlySeg)\n                            }", "", ["C08"]),
+ ("c06-transform-before-context", "src/subrule.rs", "                if !self.match_contexts_and_exceptions(&word, start, end, true)? {", "                if false && !self.match_contexts_and_exceptions(&word, start, end, true)? {", ["C06", "C03"]),
+ ("c06-revert-ellipsis-fix", "src/subrule.rs", "REVERT:fix: elements after an ellipsis", "", ["C06"]),
+ ("c07-var-captures-after-increment", "src/subrule.rs", "                self.variables.borrow_mut().insert(*v, VarKind::Segment(word.get_seg_at(*pos).unwrap()));\n            }\n            captures.push(MatchElement::Segment(*pos, None));", "                let mut p2 = *pos; p2.increment(word);\n                self.variables.borrow_mut().insert(*v, VarKind::Segment(word.get_seg_at(p2).unwrap_or(word.get_seg_at(*pos).unwrap())));\n            }\n            captures.push(MatchElement::Segment(*pos, None));", ["C07"]),
+ ("c07-revert-structure-capture", "src/subrule.rs", "REVERT:fix: a structure in the input bound to a variable", "", ["C07", "C02"]),
+ ("c08-empty-syllable-kept-after-deletion", "src/subrule.rs", "                            res_word.syllables[i.syll_index].segments.remove(i.seg_index);\n                            // if that was the only segment in that syllable, remove the syllable\n                            if res_word.syllables[i.syll_index].segments.is_empty() {", "                            res_word.syllables[i.syll_index].segments.remove(i.seg_index);\n                            // if that was the only segment in that syllable, remove the syllable\n                            if false && res_word.syllables[i.syll_index].segments.is_empty() {", ["C08"]),
+ ("c08-tone-concat-not-capped", "src/subrule.rs", "        if nums.len() > 4 {\n            // Somehow meld", "        if nums.len() > 5 {\n            // Somehow meld", ["C08"]),
+ ("c10-alphas-leak-across-rules", "src/subrule.rs", "        loop {\n            #[cfg(feature = \"verif\")] crate::verif::tick_growth(100, &word);\n            self.alphas.borrow_mut().clear();", "        loop {\n            #[cfg(feature = \"verif\")] crate::verif::tick_growth(100, &word);\n            if false { self.alphas.borrow_mut().clear(); }", ["C04", "C11", "C03"]),
+ ("c11-output-order-reversed-for-3-words", "src/lib.rs", "        transformed_phrases.push(transformed_phrase);\n    }\n\n    Ok(transformed_phrases)", "        transformed_phrases.push(transformed_phrase);\n    }\n    if transformed_phrases.len() == 3 { transformed_phrases.swap(0, 2); }\n\n    Ok(transformed_phrases)", ["C11", "C01"]),
+ ("c12-P-group-sonorant", "src/parser.rs", "\"P\" => vec![CONS_P, SONR_M, SYLL_M, DLRL_M, CONT_M],", "\"P\" => vec![CONS_P, SONR_P, SYLL_M, DLRL_M, CONT_M],", ["C12"]),
+ ("c12-special-env-not-mirrored", "src/parser.rs", "after: x.into_iter().rev().collect(), position}]), position)", "after: x.into_iter().collect(), position}]), position)", ["C12"]),
+ ("c13-alias-lexer-voi-typo", "src/alias/lexer.rs", "\"voice\"          | \"voi\"", "\"voice\"          | \"vio\"", ["C13"]),
+ ("c13-rule-lexer-lo-removed", "src/lexer.rs", "\"low\"     | \"lw\"    | \"lo\" ", "\"low\"     | \"lw\"    | \"lq\" ", ["C13"]),
+ ("c13-revert-followset-fix", "src/parser.rs", "REVERT:fix: accept `//` and a trailing", "", ["C13"]),
+ ("c14-boundary-deletion-drops-tone-merge-keeps-segments-swapped", "src/subrule.rs", "                            let mut syll_segs = res_word.syllables[i].segments.clone();\n                            res_word.syllables[i-1].segments.append(&mut syll_segs);\n\n                            res_word.syllables[i-1].stress = match (res_word.syllables[i-1].stress, res_word.syllables[i].stress) {\n                                (StressKind::Primary, _) | (_, StressKind::Primary) => StressKind::Primary,\n                                (StressKind::Secondary, StressKind::Secondary)", "                            let mut syll_segs = res_word.syllables[i].segments.clone();\n                            syll_segs.make_contiguous().reverse();\n                            res_word.syllables[i-1].segments.append(&mut syll_segs);\n\n                            res_word.syllables[i-1].stress = match (res_word.syllables[i-1].stress, res_word.syllables[i].stress) {\n                                (StressKind::Primary, _) | (_, StressKind::Primary) => StressKind::Primary,\n                                (StressKind::Secondary, StressKind::Secondary)", ["C14"]),
+ ("c14-feature-change-resets-tone", "src/syll.rs", "            seg.apply_seg_mods(alphas, mods.nodes, mods.feats, err_pos, false)?;\n            seg_len -= 1;", "            seg.apply_seg_mods(alphas, mods.nodes, mods.feats, err_pos, false)?;\n            if mods.feats[6].is_some() { self.tone = 0; }\n            seg_len -= 1;", ["C14"]),
+ ("c15-romaniser-strips-tone-always", "src/word.rs", "            if !strip_tone && syll.tone != 0{", "            if false && !strip_tone && syll.tone != 0{", ["C15"]),
+ ("c15-deromaniser-long-gives-overlong", "src/word.rs", "                    BinMod::Positive => Ok(Some(2)),\n                    BinMod::Negative => Ok(Some(1)),\n                },\n                ModKind::Alpha(_) => unreachable!(),\n            },\n            [Some(long), Some(over)]", "                    BinMod::Positive => Ok(Some(3)),\n                    BinMod::Negative => Ok(Some(1)),\n                },\n                ModKind::Alpha(_) => unreachable!(),\n            },\n            [Some(long), Some(over)]", ["C15"]),
+ ("c16-trace-compares-with-original", "src/lib.rs", "        if res_phrase != res_step {", "        if res_phrase != *phrase {", ["C16"]),
+ ("c16-trace-string-name-offbyone", "src/lib.rs", "rules[change.rule_index].name", "rules[change.rule_index.saturating_sub(1)].name", ["C16"]),
+ ("c17-token-line-plus-one", "src/lexer.rs", "Self { kind, value: Rc::from(value), position: Position::new(group, line, start, end) }", "Self { kind, value: Rc::from(value), position: Position::new(group, if group == 2 { line + 1 } else { line }, start, end) }", ["C17"]),
+ ("c17-revert-caret-fix", "src/error/runtime.rs", "REVERT:fix: the second caret span", "", ["C17"]),
+ ("c19-rsca-group-ends-on-any-blank-line", "src/cli/parse.rs", "            if !r.is_empty() && !r.description.is_empty() {", "            if !r.is_empty() {", ["C19"]),
+ ("c19-revert-conv-json-swap", "src/main.rs", "REVERT:fix: `asca conv json` passed", "", ["C19"]),
+ ("c19-wsca-comment-kept-when-two-hashes", "src/cli/parse.rs", "        let word = line_iter.next().unwrap().trim().to_owned();", "        let word = if line.matches('#').count() >= 2 { line.trim().to_owned() } else { line_iter.next().unwrap().trim().to_owned() };", ["C19"]),
+ ("c20-only-filter-keeps-file-order", "src/cli/config/parser.rs", "                let mut entries = Vec::new();\n                for filter in &filters {\n                    match entry_rules.iter().find(|r| r.name.to_lowercase() == filter.to_lowercase()) {\n                        Some(entry) => entries.push(entry.clone()),\n                        None => return Err(self.error(format!(\"Could not find rule '{}' in '{}'.\\nMake sure the rule name matches exactly!\", filter, rule_file))),\n                    }\n                }", "                let entries: Vec<RuleGroup> = entry_rules.iter().filter(|r| filters.iter().any(|f| f.to_lowercase() == r.name.to_lowercase())).cloned().collect();", ["C20"]),
+ ("c20-cycle-check-only-self-loops", "src/cli/config/parser.rs", "            if !set.insert(from.to_string()) {\n                return true\n            }", "            if from.as_ref() == head.tag.as_ref() {\n                return true\n            }\n            if !set.insert(from.to_string()) { return false }", ["C20"]),
+ ("c20-exclude-filter-case-sensitive", "src/cli/config/parser.rs", "let entries = entry_rules.iter().filter(|r| !filters.contains(&r.name.to_lowercase())).cloned().collect::<Vec<_>>();", "let entries = entry_rules.iter().filter(|r| !filters.contains(&r.name)).cloned().collect::<Vec<_>>();", ["C20"]),
 ]
 
 def sh(cmd, **kw): return subprocess.run(cmd, shell=True, capture_output=True, text=True, **kw)
@@ -30,7 +57,8 @@ def sh(cmd, **kw): return subprocess.run(cmd, shell=True, capture_output=True, t
 def apply(name, file, old, new):
     if old.startswith("REVERT:"):
         subj = old[len("REVERT:"):]
-        h = sh(f"git -C /repo log --format='%h %s' | grep -F \"{subj}\" | head -1").stdout.split()
+        log = subprocess.run(["git", "-C", "/repo", "log", "--format=%h %s"], capture_output=True, text=True).stdout.splitlines()
+        h = [l.split()[0] for l in log if subj in l]
         if not h: return "no such commit"
         r = sh(f"cd /repo && git show {h[0]} | git apply -R")
         return None if r.returncode == 0 else r.stderr
@@ -47,8 +75,9 @@ def main():
         err = apply(name, file, old, new)
         if err: print(f"{name}: cannot apply ({err})"); rows.append((name, "not applied", err)); continue
         try:
-            t = sh("cd /repo && cargo test --offline 2>&1 | grep -E 'test result|error(\\[|:)' | head -3")
+            t = sh("cd /repo && cargo test --offline 2>&1 | grep -E 'test result|^error' | head -3")
             tests_ok = "144 passed; 0 failed" in t.stdout
+            if "error" in t.stdout and "test result" not in t.stdout: print(f"{name}: DOES NOT COMPILE"); rows.append((name, "does not compile", t.stdout[:200])); continue
             res = []
             for c in checks:
                 t0 = time.time()
